@@ -45,6 +45,8 @@ def facts : Facts :=
     returnDstIdx := (.add .base .i),
     returnBaseIsChildPos := true,
     defaultDstIdx := (.add .base .i),
+    branchDstIdx := .base,
+    branchStore := .both,
     nestedReadIdx := (.add .base .i),
     wrapFrameIsDefTypes := true,
     wrapFramePerCall := true,
